@@ -93,14 +93,14 @@ Section JoinLive.
   Proof.
     apply (fair_executor_returns jst j_slots j_awaited (fun _ i => i) j_handle tuple tuple j_order (fun _ => None) j_pre_any j_finish (fun s => s) j_drop
              (fun _ => true) j_Q J1 J2 J3 J4 J5 J6 J7 J8 J9 J10 J11 J12 J13 J14 J15 J16 J17 (fun _ => eq_refl) (fun _ _ _ => eq_refl) (fun _ H => H)
-             jmut jmut_inv (fun _ _ => eq_refl) j_abort_panic TSj USj USj_cont TSj_order USj_finish USj_endp TSj_order_some).
+             jmut jmut_inv (fun _ _ => true) (fun _ _ _ _ _ => eq_refl) (fun _ _ _ _ _ _ _ _ H => H) j_slots (fun _ _ _ H _ => H) (fun s i a _ _ _ => conj (J1 s i a) (fun _ _ _ => conj eq_refl eq_refl)) (fun s is s1 _ E => conj (J10 s is s1 E) (fun _ _ _ => conj eq_refl eq_refl)) (fun s _ => conj (J15 s) (fun _ _ _ => conj eq_refl eq_refl)) (fun s _ => conj eq_refl (fun _ _ _ => conj eq_refl eq_refl)) j_abort_panic (fun a => a <> APanic) (fun _ H => H) APend_not_panic TSj USj (fun s i a s' e _ _ _ => USj_cont s i a s' e) TSj_order USj_finish USj_endp TSj_order_some).
     - apply (join_init tuple).
     - (* LiveI *)
       split; [reflexivity|]. split.
       + intros m st Hin. cbn in Hin. pose proof (Hfut m) as Hf. unfold fut_script in Hf. rewrite Forall_forall in Hf.
         destruct (Hf st Hin) as [E|[v E]]; rewrite E; discriminate.
       + unfold HT, N, j_slots, polled. cbn. rewrite !repeat_length. split; [reflexivity|]. split; [reflexivity|].
-        intros c Hc. rewrite !repeat_nth by exact Hc. split; [intros h []|discriminate].
+        intros c Hc _. rewrite !repeat_nth by exact Hc. split; [intros h []|discriminate].
     - split; [reflexivity|]. split; [reflexivity|]. exact Hn.
     - reflexivity.
     - reflexivity.
@@ -211,11 +211,11 @@ Section JoinFamLive.
     assert (X : finished _ (frounds (bound scs) fw0) = true /\ returned _ (frounds (bound scs) fw0) /\ dropped _ (frounds (bound scs) fw0) = false).
     { apply (fair_executor_returns jst j_slots j_awaited (fun _ i => i) j_handle tuple tuple j_order (fun _ => None) j_pre_any j_finish (fun s => s) j_drop
              (fun _ => true) j_Q J1 J2 J3 J4 J5 J6 J7 J8 J9 J10 J11 J12 J13 J14 J15 J16 J17 (fun _ => eq_refl) (fun _ _ _ => eq_refl) (fun _ H => H)
-             jmut jmut_inv (fun _ _ => eq_refl) j_abort_panic (TSj tuple) (USj tuple) (USj_cont tuple scs Hn) (TSj_order tuple) (USj_finish tuple scs Hn) (USj_endp tuple) (TSj_order_some tuple)).
+             jmut jmut_inv (fun _ _ => true) (fun _ _ _ _ _ => eq_refl) (fun _ _ _ _ _ _ _ _ H => H) j_slots (fun _ _ _ H _ => H) (fun s i a _ _ _ => conj (J1 s i a) (fun _ _ _ => conj eq_refl eq_refl)) (fun s is s1 _ E => conj (J10 s is s1 E) (fun _ _ _ => conj eq_refl eq_refl)) (fun s _ => conj (J15 s) (fun _ _ _ => conj eq_refl eq_refl)) (fun s _ => conj eq_refl (fun _ _ _ => conj eq_refl eq_refl)) j_abort_panic (fun a => a <> APanic) (fun _ H => H) APend_not_panic (TSj tuple) (USj tuple) (fun s i a s' e _ _ _ => USj_cont tuple scs Hn s i a s' e) (TSj_order tuple) (USj_finish tuple scs Hn) (USj_endp tuple) (TSj_order_some tuple)).
       - apply (join_init tuple).
       - split; [reflexivity|]. split; [exact Hnp|].
         unfold HT, N, j_slots, polled. cbn. rewrite !repeat_length. split; [reflexivity|]. split; [reflexivity|].
-        intros c Hc. rewrite !repeat_nth by exact Hc. split; [intros h []|discriminate].
+        intros c Hc _. rewrite !repeat_nth by exact Hc. split; [intros h []|discriminate].
       - split; [reflexivity|]. split; [reflexivity|]. exact Hn.
       - reflexivity.
       - reflexivity.
